@@ -54,7 +54,19 @@ the edited strip's own coordinates on the other sheet for C15-m2; C18 pass over 
 references for C11-m2; C25 escape look-alike text values for C25-m1; C30 ordered pairs of number formats, case-variant custom
 codes and rows/columns styled in descending order for C30-m1/m2/m3; C32 rename-and-rescope in one edit for C32-m2; C02 family
 "redo while another display language is active" for C32-m3; cross-sheet cut of a spill anchor onto its own spill coordinates
-in the alphabet for C31-m3 (caught by C27). Not caught by their own property's check but by a neighbour: see the table.
+in the alphabet for C31-m3 (caught by C27). Second round (m4–m6 of C01, C03, C04, C13, C15, C16, C24, C31; each agent was
+told what the first round had produced and asked for something else): 14 of 24 were caught as the checks stood; the rest
+led to: C03 plan "every pair of operations, then undo" and a built-in number-format-only named style applied to absent cells of
+a styled row / column for C03-m5/m6; C04 start states with content, sizes and hidden lines next to the last columns / rows
+and group moves whose last line alone leaves the grid for C04-m4; C15 (and C12–C14, same builder) a hidden line of the other
+axis inside the landing zones for C15-m5; C16 sheet names that must be quoted (with an apostrophe to double) and error
+literals in the cut formulas for C16-m5/m4; C24 every sequence of ≤3 links over {two external targets, internal} and of ≤3
+conditional formats over {empty format, fill, bold} for C24-m4/m6; C31 clear-all areas that hold the anchor in a later
+column for C31-m6; an empty-format conditional format and a rename+rescope+redefine of a name in the common alphabet (the
+latter exposed a genuine C01 defect, repaired in /repo 4cbca90). C16-m6 is caught by C27 (orphan spill cell), not by C16:
+the statement leaves the vacated source cells open. Two first-round changes (C06-m1, C06-m3) turned out to fail the
+repository's own xlsx tests and were moved to `seeded/rejected/`. Not caught by their own property's check but by a
+neighbour: see the table.
 """
 p='/verif/DESIGN.md'
 s=open(p).read()
